@@ -7,6 +7,8 @@ Model of
 * `TPMetricsAph.get_value`                   (evaluation/metrics/detection/tp_metrics.py)
 * `DynamicObject.get_heading_error` / `_clip` (common/object.py), read through
   `DynamicObjectWithPerceptionResult.heading_error`
+* the yaw branch of `PerceptionAnalyzerBase.calculate_error` (tool/perception_analyzer_base.py): the second
+  public place where the library reports a yaw error for a pair
 
 Angles are **half-turns** `τ ∈ ℚ` (angle = τ·π, DESIGN 4.2): π becomes the rational `1`, 2π becomes
 `2`.  A yaw returned by `pyquaternion.Quaternion.yaw_pitch_roll[0]` (an `atan2`) lies in `(−1, 1]`.
@@ -79,6 +81,35 @@ def aphValue (τe : Rat) (τg : Option Rat) : Rat :=
 
 /-- `heading_error[2] / π`; `None` when there is no ground truth -/
 def headingErrorOpt (τe : Rat) (τg : Option Rat) : Option Rat := τg.map (headingError τe)
+
+/-! ## the analysis tool's yaw error column -/
+
+/-- `PerceptionAnalyzerBase.calculate_error("yaw")` for one paired row, yaws of both objects in `BASE_LINK`:
+```
+err = gt_arr - est_arr
+err[err > pi]  = -2pi + err[err > pi]
+err[err < -pi] =  2pi + err[err < -pi]
+```
+(two masked assignments, in this order) -/
+def analyzerYawError (τe τg : Rat) : Rat :=
+  let e := τg - τe
+  let e := if e > 1 then e - 2 else e
+  let e := if e < -1 then e + 2 else e
+  e
+
+/-- `PerceptionAnalyzer3D.format2dict`: every object is brought to `BASE_LINK` through the frame's transforms before
+its yaw is tabulated; for a map-frame object of yaw `τm` and ego yaw `τ0` that is the principal value of `τm − τ0` -/
+def toEgoYaw (τ0 τm : Rat) : Rat := wrapYaw (τm - τ0)
+
+/-- the analyzer's yaw error of the pair rendered in the map frame (ego yaw `τ0`) -/
+def analyzerYawErrorMap (τ0 τe τg : Rat) : Rat :=
+  analyzerYawError (toEgoYaw τ0 (wrapYaw (τe + τ0))) (toEgoYaw τ0 (wrapYaw (τg + τ0)))
+
+/-- a *saturating* clip (`np.clip(err, −π, π)`) in place of the wrap, kept only for the witness theorem
+`saturating_not_minimal`: it stays inside `[−π, π]` but loses the magnitude across the ±π seam -/
+def saturatingYawError (τe τg : Rat) : Rat :=
+  let e := τg - τe
+  if e > 1 then 1 else if e < -1 then -1 else e
 
 /-! ## specification side -/
 
